@@ -67,7 +67,7 @@ func (rs *s3ClientStorage) CreateBucket(ctx context.Context, bucketName storage.
 		return storage.ErrBucketAlreadyExists
 	}
 	if err != nil {
-		return err
+		return translateS3Error(err)
 	}
 	return nil
 }
@@ -87,7 +87,7 @@ func (rs *s3ClientStorage) DeleteBucket(ctx context.Context, bucketName storage.
 		return storage.ErrBucketNotEmpty
 	}
 	if err != nil {
-		return err
+		return translateS3Error(err)
 	}
 	return nil
 }
@@ -98,7 +98,7 @@ func (rs *s3ClientStorage) ListBuckets(ctx context.Context) ([]storage.Bucket, e
 
 	listBucketsResult, err := rs.s3Client.ListBuckets(ctx, &s3.ListBucketsInput{})
 	if err != nil {
-		return nil, err
+		return nil, translateS3Error(err)
 	}
 	buckets := sliceutils.Map(func(bucket types.Bucket) storage.Bucket {
 		return storage.Bucket{
@@ -121,7 +121,7 @@ func (rs *s3ClientStorage) HeadBucket(ctx context.Context, bucketName storage.Bu
 		return nil, storage.ErrNoSuchBucket
 	}
 	if err != nil {
-		return nil, err
+		return nil, translateS3Error(err)
 	}
 	return &storage.Bucket{
 		Name:         bucketName,
@@ -141,7 +141,7 @@ func (rs *s3ClientStorage) GetBucketVersioningConfiguration(ctx context.Context,
 		return nil, storage.ErrNoSuchBucket
 	}
 	if err != nil {
-		return nil, err
+		return nil, translateS3Error(err)
 	}
 	if result.Status == "" {
 		return &storage.BucketVersioningConfiguration{}, nil
@@ -159,7 +159,7 @@ func (rs *s3ClientStorage) PutBucketVersioningConfiguration(ctx context.Context,
 		status = types.BucketVersioningStatusEnabled
 	}
 	_, err := rs.s3Client.PutBucketVersioning(ctx, &s3.PutBucketVersioningInput{Bucket: aws.String(bucketName.String()), VersioningConfiguration: &types.VersioningConfiguration{Status: status}})
-	return err
+	return translateS3Error(err)
 }
 
 func (rs *s3ClientStorage) GetBucketNotificationConfiguration(ctx context.Context, bucketName storage.BucketName) (*storage.BucketNotificationConfiguration, error) {
@@ -174,7 +174,7 @@ func (rs *s3ClientStorage) GetBucketNotificationConfiguration(ctx context.Contex
 		return nil, storage.ErrNoSuchBucket
 	}
 	if err != nil {
-		return nil, err
+		return nil, translateS3Error(err)
 	}
 
 	config := &storage.BucketNotificationConfiguration{
@@ -252,7 +252,7 @@ func (rs *s3ClientStorage) PutBucketNotificationConfiguration(ctx context.Contex
 		Bucket:                    aws.String(bucketName.String()),
 		NotificationConfiguration: notificationConfiguration,
 	})
-	return err
+	return translateS3Error(err)
 }
 
 func s3EventsToStrings(events []types.Event) []string {
@@ -309,7 +309,7 @@ func (rs *s3ClientStorage) ListObjects(ctx context.Context, bucketName storage.B
 		return nil, storage.ErrNoSuchBucket
 	}
 	if err != nil {
-		return nil, err
+		return nil, translateS3Error(err)
 	}
 	objects := sliceutils.Map(func(object types.Object) storage.Object {
 		// S3 list responses only carry the checksum type and algorithm, not
@@ -350,7 +350,7 @@ func (rs *s3ClientStorage) ListObjectVersions(ctx context.Context, bucketName st
 		MaxKeys:         aws.Int32(opts.MaxKeys),
 	})
 	if err != nil {
-		return nil, err
+		return nil, translateS3Error(err)
 	}
 
 	versions := []storage.ObjectVersion{}
@@ -389,7 +389,7 @@ func (rs *s3ClientStorage) HeadObject(ctx context.Context, bucketName storage.Bu
 		return nil, storage.ErrNoSuchBucket
 	}
 	if err != nil {
-		return nil, err
+		return nil, translateS3Error(err)
 	}
 	var userMetadata map[string]string
 	if len(headObjectResult.Metadata) > 0 {
@@ -472,7 +472,7 @@ func (rs *s3ClientStorage) GetObject(ctx context.Context, bucketName storage.Buc
 			for _, r := range readers {
 				r.Close()
 			}
-			return nil, nil, err
+			return nil, nil, translateS3Error(err)
 		}
 		readers = append(readers, getObjectResult.Body)
 	}
@@ -593,10 +593,11 @@ func (rs *s3ClientStorage) PutObject(ctx context.Context, bucketName storage.Buc
 		if errors.As(err, &apiErr) && apiErr.ErrorCode() == "PreconditionFailed" {
 			return nil, storage.ErrPreconditionFailed
 		}
-		return nil, err
+		return nil, translateS3Error(err)
 	}
 
 	return &storage.PutObjectResult{
+		VersionID:         putObjectResult.VersionId,
 		ETag:              putObjectResult.ETag,
 		ChecksumCRC32:     putObjectResult.ChecksumCRC32,
 		ChecksumCRC32C:    putObjectResult.ChecksumCRC32C,
@@ -629,17 +630,45 @@ func copySourceValue(srcBucket storage.BucketName, srcKey storage.ObjectKey, sou
 	return value
 }
 
-func translateS3CopyError(err error) error {
+// encodeTagging renders a tag set as an x-amz-tagging header value (nil for no tags).
+func encodeTagging(tags map[string]string) *string {
+	if len(tags) == 0 {
+		return nil
+	}
+	values := url.Values{}
+	for k, v := range tags {
+		values.Set(k, v)
+	}
+	return aws.String(values.Encode())
+}
+
+// s3ErrorCodes maps S3 API error codes onto the storage error values.
+var s3ErrorCodes = map[string]error{
+	"NoSuchBucket": storage.ErrNoSuchBucket, "NoSuchKey": storage.ErrNoSuchKey,
+	"PreconditionFailed": storage.ErrPreconditionFailed, "BadDigest": storage.ErrBadDigest,
+	"InvalidPart": storage.ErrInvalidPart, "InvalidPartOrder": storage.ErrInvalidPartOrder,
+	"InvalidRange": storage.ErrInvalidRange, "InvalidStorageClass": storage.ErrInvalidStorageClass,
+	"BucketAlreadyExists": storage.ErrBucketAlreadyExists, "BucketNotEmpty": storage.ErrBucketNotEmpty,
+	"EntityTooLarge": storage.ErrEntityTooLarge, "TooManyParts": storage.ErrTooManyParts,
+	"InvalidTag": storage.ErrInvalidTag, "MetadataTooLarge": storage.ErrMetadataTooLarge,
+	"NotImplemented": storage.ErrNotImplemented,
+}
+
+// translateS3Error maps an SDK error carrying an S3 error code onto the storage
+// error value; anything else is returned unchanged.
+func translateS3Error(err error) error {
 	var apiErr smithy.APIError
-	if errors.As(err, &apiErr) {
-		switch apiErr.ErrorCode() {
-		case "NoSuchBucket":
-			return storage.ErrNoSuchBucket
-		case "NoSuchKey":
-			return storage.ErrNoSuchKey
-		case "PreconditionFailed":
-			return storage.ErrPreconditionFailed
+	if err != nil && errors.As(err, &apiErr) {
+		if mapped, ok := s3ErrorCodes[apiErr.ErrorCode()]; ok {
+			return mapped
 		}
+	}
+	return err
+}
+
+func translateS3CopyError(err error) error {
+	if mapped := translateS3Error(err); mapped != err {
+		return mapped
 	}
 	var notFoundError *types.NotFound
 	if errors.As(err, &notFoundError) {
@@ -765,7 +794,7 @@ func (rs *s3ClientStorage) DeleteObject(ctx context.Context, bucketName storage.
 		return nil, storage.ErrNoSuchBucket
 	}
 	if err != nil {
-		return nil, err
+		return nil, translateS3Error(err)
 	}
 	return &storage.DeleteObjectResult{VersionID: result.VersionId, IsDeleteMarker: aws.ToBool(result.DeleteMarker)}, nil
 }
@@ -796,7 +825,7 @@ func (rs *s3ClientStorage) DeleteObjects(ctx context.Context, bucketName storage
 		return nil, storage.ErrNoSuchBucket
 	}
 	if err != nil {
-		return nil, err
+		return nil, translateS3Error(err)
 	}
 
 	result := &storage.DeleteObjectsResult{
@@ -864,7 +893,7 @@ func (rs *s3ClientStorage) CreateMultipartUpload(ctx context.Context, bucketName
 		return nil, storage.ErrNoSuchBucket
 	}
 	if err != nil {
-		return nil, err
+		return nil, translateS3Error(err)
 	}
 	return &storage.InitiateMultipartUploadResult{
 		UploadId: storage.MustNewUploadId(*initiateMultipartUploadResult.UploadId),
@@ -897,7 +926,7 @@ func (rs *s3ClientStorage) UploadPart(ctx context.Context, bucketName storage.Bu
 		return nil, storage.ErrNoSuchBucket
 	}
 	if err != nil {
-		return nil, err
+		return nil, translateS3Error(err)
 	}
 	return &storage.UploadPartResult{
 		ETag:              *uploadPartResult.ETag,
@@ -995,7 +1024,7 @@ func (rs *s3ClientStorage) CompleteMultipartUpload(ctx context.Context, bucketNa
 		return nil, storage.ErrNoSuchBucket
 	}
 	if err != nil {
-		return nil, err
+		return nil, translateS3Error(err)
 	}
 	return &storage.CompleteMultipartUploadResult{
 		Location:          *completeMultipartUploadResult.Location,
@@ -1024,7 +1053,7 @@ func (rs *s3ClientStorage) AbortMultipartUpload(ctx context.Context, bucketName 
 		return storage.ErrNoSuchBucket
 	}
 	if err != nil {
-		return err
+		return translateS3Error(err)
 	}
 	return nil
 }
@@ -1046,7 +1075,7 @@ func (rs *s3ClientStorage) ListMultipartUploads(ctx context.Context, bucketName 
 		return nil, storage.ErrNoSuchBucket
 	}
 	if err != nil {
-		return nil, err
+		return nil, translateS3Error(err)
 	}
 
 	uploads := sliceutils.Map(func(upload types.MultipartUpload) storage.Upload {
@@ -1091,7 +1120,7 @@ func (rs *s3ClientStorage) ListParts(ctx context.Context, bucketName storage.Buc
 		return nil, storage.ErrNoSuchBucket
 	}
 	if err != nil {
-		return nil, err
+		return nil, translateS3Error(err)
 	}
 	return &storage.ListPartsResult{
 		BucketName:           storage.MustNewBucketName(*listPartsResult.Bucket),
@@ -1133,7 +1162,7 @@ func (rs *s3ClientStorage) GetBucketWebsiteConfiguration(ctx context.Context, bu
 		return nil, storage.ErrNoSuchBucket
 	}
 	if err != nil {
-		return nil, err
+		return nil, translateS3Error(err)
 	}
 
 	config := &storage.WebsiteConfiguration{}
@@ -1232,7 +1261,7 @@ func (rs *s3ClientStorage) PutBucketWebsiteConfiguration(ctx context.Context, bu
 		return storage.ErrNoSuchBucket
 	}
 	if err != nil {
-		return err
+		return translateS3Error(err)
 	}
 	return nil
 }
@@ -1249,7 +1278,7 @@ func (rs *s3ClientStorage) DeleteBucketWebsiteConfiguration(ctx context.Context,
 		return storage.ErrNoSuchBucket
 	}
 	if err != nil {
-		return err
+		return translateS3Error(err)
 	}
 	return nil
 }
@@ -1269,7 +1298,7 @@ func (rs *s3ClientStorage) GetBucketCORSConfiguration(ctx context.Context, bucke
 		return nil, storage.ErrNoSuchBucket
 	}
 	if err != nil {
-		return nil, err
+		return nil, translateS3Error(err)
 	}
 
 	rules := make([]storage.CORSRule, 0, len(result.CORSRules))
@@ -1324,7 +1353,7 @@ func (rs *s3ClientStorage) PutBucketCORSConfiguration(ctx context.Context, bucke
 		return storage.ErrNoSuchBucket
 	}
 	if err != nil {
-		return err
+		return translateS3Error(err)
 	}
 	return nil
 }
@@ -1341,7 +1370,7 @@ func (rs *s3ClientStorage) DeleteBucketCORSConfiguration(ctx context.Context, bu
 		return storage.ErrNoSuchBucket
 	}
 	if err != nil {
-		return err
+		return translateS3Error(err)
 	}
 	return nil
 }
@@ -1543,7 +1572,7 @@ func (rs *s3ClientStorage) GetBucketLifecycleConfiguration(ctx context.Context, 
 		return nil, storage.ErrNoSuchBucket
 	}
 	if err != nil {
-		return nil, err
+		return nil, translateS3Error(err)
 	}
 
 	rules := make([]storage.LifecycleRule, 0, len(result.Rules))
@@ -1574,7 +1603,7 @@ func (rs *s3ClientStorage) PutBucketLifecycleConfiguration(ctx context.Context, 
 		return storage.ErrNoSuchBucket
 	}
 	if err != nil {
-		return err
+		return translateS3Error(err)
 	}
 	return nil
 }
@@ -1591,7 +1620,7 @@ func (rs *s3ClientStorage) DeleteBucketLifecycleConfiguration(ctx context.Contex
 		return storage.ErrNoSuchBucket
 	}
 	if err != nil {
-		return err
+		return translateS3Error(err)
 	}
 	return nil
 }
@@ -1613,7 +1642,7 @@ func (rs *s3ClientStorage) GetObjectTagging(ctx context.Context, bucketName stor
 		return nil, storage.ErrNoSuchKey
 	}
 	if err != nil {
-		return nil, err
+		return nil, translateS3Error(err)
 	}
 
 	tags := map[string]string{}
@@ -1649,7 +1678,7 @@ func (rs *s3ClientStorage) PutObjectTagging(ctx context.Context, bucketName stor
 		return storage.ErrNoSuchKey
 	}
 	if err != nil {
-		return err
+		return translateS3Error(err)
 	}
 	return nil
 }
@@ -1671,7 +1700,7 @@ func (rs *s3ClientStorage) DeleteObjectTagging(ctx context.Context, bucketName s
 		return storage.ErrNoSuchKey
 	}
 	if err != nil {
-		return err
+		return translateS3Error(err)
 	}
 	return nil
 }
